@@ -309,6 +309,18 @@ var alphabet = []string{
 	"\u2028", "\u2029", "\u0085", "\u00a0", "\"a\u2028b\"", "'''x\u2029y'''", "# c\u2028d\n", "n\u2028m", "\ufeff", "\v", "\f",
 }
 
+func init() {
+	// every odd character alone, glued to a name, and inside a literal and a comment
+	for _, r := range gen.OddRunes {
+		alphabet = append(alphabet, string(r), "n"+string(r), string(r)+"m")
+	}
+	for i, r := range gen.OddRunes {
+		if i%4 == 0 {
+			alphabet = append(alphabet, "\""+string(r)+"\"", "# "+string(r)+"\n", "`"+string(r)+"`")
+		}
+	}
+}
+
 func genTokens(t *rapid.T) string {
 	n := rapid.IntRange(0, 24).Draw(t, "n")
 	var b strings.Builder
